@@ -95,6 +95,74 @@ theorem conversion_step_accuracy_div (fm : Fm) (s1 s2 : Bool) (m1 m2 : Nat) (e1 
       (fm.fmt.u * (1 + c / (1 - c)) + c / (1 - c)) * (|Fl.toReal (.fin s1 m1 e1)| / A) :=
   Fl.div_const_accuracy fm.fmt (by cases fm <;> decide) s1 s2 m1 m2 e1 e2 h1 h2 A c hA hc hc1 hK hnorm hr hfin
 
+/-- The rational `flPosRat` returns is the value of the floating-point datum. -/
+theorem flPosRat_real {v : Fl} {k : Nat × Nat} (h : flPosRat v = some k) :
+    ∃ m e, v = .fin false m e ∧ 0 < m ∧ ratR k = Fl.toReal v := by
+  cases v with
+  | nan => simp [flPosRat] at h
+  | inf s => simp [flPosRat] at h
+  | fin s m e =>
+    cases s with
+    | true => simp [flPosRat] at h
+    | false =>
+      simp only [flPosRat] at h
+      split at h
+      · cases h
+      · rename_i hm
+        refine ⟨m, e, rfl, Nat.pos_of_ne_zero hm, ?_⟩
+        rw [Fl.toReal_fin]
+        simp only [Fl.sgn, Bool.false_eq_true, if_false, one_mul]
+        split at h
+        · rename_i he
+          cases h
+          unfold ratR
+          simp only
+          rw [Nat.cast_mul, Fl.two_zpow_toNat he]; simp
+        · rename_i he
+          cases h
+          have he' : 0 ≤ -e := by omega
+          unfold ratR
+          simp only
+          rw [Fl.two_zpow_toNat he', zpow_neg]; field_simp
+
+/-- **C01 (a multiplicative kernel, end to end, closed form).** For a kernel `x ↦ x·K` accepted by the
+table check against a *rational* factor `A = num/den` (no power of π — all but the angular units): the
+code's constant is the float `Kv` with `|Kv − A| ≤ (ek/2^p)·A`, and for every finite non-zero `x` whose
+product is in the normal range and does not overflow,
+`|fl(x·Kv) − x·A| ≤ (u·(1 + c) + c)·|x|·A` with `c = ek/2^p` (`ek = 4` in the table theorem): about five
+units in the last place of the exact answer, for either sign and any magnitude in range. -/
+theorem rational_scale_kernel_end_to_end {fm : Fm} {ek : Nat} {want : Meaning} {ke K : Expr}
+    (hd : want.den ≠ 0) (hn : want.num ≠ 0) (hk0 : want.k = 0)
+    (hshape : kernelShape ke = .scale K false) (h : checkKernel fm ek want true ke = true) :
+    ∃ m2 e2, K.evalF Libm.none (fun _ => .nan) = .fin false m2 e2 ∧ 0 < m2 ∧
+      ∀ (s1 : Bool) (m1 : Nat) (e1 : Int), 0 < m1 →
+        fm.fmt.minNormal ≤ |Fl.toReal (.fin s1 m1 e1) * Fl.toReal (.fin false m2 e2)| →
+        ∀ r, Fl.mul fm.fmt (.fin s1 m1 e1) (.fin false m2 e2) = r → r.isFinite = true →
+          |Fl.toReal r - Fl.toReal (.fin s1 m1 e1) * ((want.num : ℝ) / want.den)| ≤
+            (fm.fmt.u * (1 + (ek : ℝ) / 2 ^ fm.fmt.p) + (ek : ℝ) / 2 ^ fm.fmt.p) *
+              (|Fl.toReal (.fin s1 m1 e1)| * ((want.num : ℝ) / want.den)) := by
+  obtain ⟨k, hk, _, _, hlo, hhi⟩ := scale_constant_real_bound hd hshape h
+  obtain ⟨m2, e2, hv, hm2, hreal⟩ := flPosRat_real hk
+  have hA : (0 : ℝ) < (want.num : ℝ) / want.den := by
+    have : (0 : ℝ) < want.num := by exact_mod_cast Nat.pos_of_ne_zero hn
+    have : (0 : ℝ) < want.den := by exact_mod_cast Nat.pos_of_ne_zero hd
+    positivity
+  -- with k = 0 the enclosure is the point A
+  have hencl : ratR (enclose want).1 = (want.num : ℝ) / want.den ∧
+      ratR (enclose want).2 = (want.num : ℝ) / want.den := by
+    unfold enclose ratR
+    simp [hk0]
+  rw [hencl.1] at hlo
+  rw [hencl.2] at hhi
+  rw [hreal, hv] at hlo hhi
+  refine ⟨m2, e2, hv, hm2, ?_⟩
+  intro s1 m1 e1 hm1 hnorm r hr hfin
+  have hc : (0 : ℝ) ≤ (ek : ℝ) / 2 ^ fm.fmt.p := by positivity
+  have hK : |Fl.toReal (.fin false m2 e2) - (want.num : ℝ) / want.den| ≤
+      (ek : ℝ) / 2 ^ fm.fmt.p * ((want.num : ℝ) / want.den) := by
+    rw [abs_le]; constructor <;> nlinarith
+  exact conversion_step_accuracy fm s1 false m1 m2 e1 e2 hm1 hm2 _ _ hA hc hK hnorm hr hfin
+
 /-! ### Non-vacuity -/
 
 example : (kernelRows .f64).length = 37 := by decide
